@@ -942,6 +942,18 @@ func (c *ExprCtx) call(x *ast.CallExpr) TV {
 	case "isnil":
 		a := c.eval(x.Args[0])
 		return TV{V: VBool{T: c.equal(a, TV{T: types.Typ[types.UntypedNil]})}, T: boolT}
+	case "mapval":
+		// mapval(m, k): the value stored under key k in map m by an update of the
+		// current epoch, as an uninterpreted term (the dynamic value for interfaces)
+		m, k := c.eval(x.Args[0]), c.eval(x.Args[1])
+		var ku string
+		if k.C != nil {
+			ku = c.w.foldInt(constBV(k.C, 64), 64)
+		} else {
+			ku = c.w.fold(c.st, k.V)
+		}
+		fn := c.w.st.declare("map_getU", []string{sortU, bvSort(64), sortU}, sortU)
+		return TV{V: VOpaque{T: app(fn, c.w.fold(c.st, m.V), bvLit(uint64(c.st.mapEpoch), 64), ku)}}
 	case "allochere":
 		// allochere(m): map m was created by a make in this function's own execution
 		a := c.eval(x.Args[0])
